@@ -34,6 +34,6 @@ PROPERTY = {
         Harness("c09_twin_short_length_guard", "C09.twin.short_length_guard", "PROVED-C", "write_short_length: all usize values: > 65535 refused and nothing written", crate="scylla-cql", twin=True, functions=["scylla-cql/src/frame/types.rs:write_short_length"]),
     ],
     "trusted_base": ["Verus/Z3 soundness", "bytes::BufMut append-only big-endian contract", "Cow<T> deref, str::len, to_be_bytes, slice copy_from_slice (external_body)", "compress_append only appends"],
-    "assumptions": [],
+    "assumptions": ["obeys_key_model::<Cow<str>>() (precondition of the STARTUP contract: the option keys behave as hash-map keys)", "the extractor's name-impl-trait and iter-map-collect rules", "Display of EventType is an uninterpreted name"],
     "not_covered": ["Batch::do_serialize envelope (iterator/trait-object plumbing Verus rejects), RegisterV2 (same code shape as Register, not extracted)", "LZ4/Snappy round trip", "bodies >= 4 GiB (length cast truncates; far above the protocol's frame limit)"],
 }
